@@ -60,11 +60,26 @@ def mask_ok(nz, term, d, t):
     return found, want, bool(found) and all(x == want for x in found)
 
 
+def mask_cases(s, nz, rule, con, loc, code, ref, d, t):
+    """For each of the four (done, timeout) flag combinations the code and the reference agree (the reference bootstraps unless
+    done and not timeout). Independent of how the mask is spelled (~d|t, 1-(d&~t), where(...))."""
+    from ..vgraph import FALSE as F_, TRUE as T_, replace_nodes
+    for dv in (False, True):
+        for tv in (False, True):
+            sub = {d: T_ if dv else F_, t: T_ if tv else F_}
+            a, b_ = nz.canon(replace_nodes(code, sub)), nz.canon(replace_nodes(ref, sub))
+            boot = (not dv) or tv
+            s.ob(rule, f"{con}[done={dv},timeout={tv}]", a == b_,
+                 f"with done={dv}, timeout={tv} the target {'bootstraps' if boot else 'does not bootstrap'} exactly like the reference", loc,
+                 key=f"mask-done{int(dv)}-timeout{int(tv)}", detail=f"code: {show_term(a, 300)}\nreference: {show_term(b_, 300)}",
+                 necessary_for="bootstraps through time-limit truncations and never through true terminations")
+
+
 def check(s):
     P = s.prog
     # ---------------------------------------------------------------- DQN
     b = s.builder(inline=set())
-    nz = Normalizer(b)
+    nz = Normalizer(b, ite_poly=True, bool_terms=[("attr", ("p", "batch"), "dones"), ("attr", ("p", "batch"), "timeouts")])
     con = "DQN.dqn_loss"
     loc = s.loc("DQN", "dqn_loss")
     p = one(s.paths(b, "DQN", "dqn_loss"), con)
@@ -95,11 +110,7 @@ def check(s):
     s.ob("C07.1", con, ok_am, "the greedy next action (argmax) is chosen by the online network, not the target network", loc,
          key="argmax-network", detail="; ".join(show(x, maxlen=160) for x in am),
          necessary_for="Double DQN: V' is the target network's value of the online network's greedy action")
-    found, want, ok = mask_ok(nz, nz.canon(loss), ("attr", batch, "dones"), ("attr", batch, "timeouts"))
-    s.ob("C07.3", con, ok, "the bootstrap mask is the Boolean function ~done | timeout", loc, key="nonterminal-mask",
-         detail=f"found {[show_term(x) for x in found]} want {show_term(want)}",
-         necessary_for="bootstraps through time-limit truncations and never through true terminations")
-    dqn_mask = want
+    mask_cases(s, nz, "C07.3", con, loc, loss, env["loss"], ("attr", batch, "dones"), ("attr", batch, "timeouts"))
     # C07.4 for DQN: grad wrt param 0; target policy passed separately and differs from arg 0
     b2 = s.builder(inline=set())
     con2 = "DQN.dqn_train"
@@ -140,7 +151,7 @@ def check(s):
         raise AnalysisError("DQN.iteration: dqn_train call vanished")
     # ---------------------------------------------------------------- SAC
     b4 = s.builder(inline=set())
-    nz4 = Normalizer(b4)
+    nz4 = Normalizer(b4, ite_poly=True, bool_terms=[("p", "$done"), ("p", "$timeout")])
     con4 = "SAC.sac_train"
     loc4 = s.loc("SAC", "sac_train")
     sac_paths = live(s.paths(b4, "SAC", "sac_train"))
@@ -202,14 +213,7 @@ def check(s):
              "per-sample target == r + γ·(min(q1_tgt, q2_tgt)(s′, a′) − α·log π(a′|s′))·NT, (a′, log π) from one fresh-key sample at s′",
              loc4, key="sac-target-formula",
              necessary_for="V' is the minimum of the two target critics at a freshly sampled next action minus alpha*log pi")
-        found, want, ok = mask_ok(nz4, nz4.canon(out), sym["dones"], sym["timeouts"])
-        s.ob("C07.3", con4 + tag, ok, "the bootstrap mask is the Boolean function ~done | timeout", loc4, key="nonterminal-mask",
-             detail=f"found {[show_term(x) for x in found]} want {show_term(want)}",
-             necessary_for="bootstraps through time-limit truncations and never through true terminations")
-        # same Boolean function as DQN (sibling): compare truth tables
-        s.ob("C07.3", "siblings(DQN.dqn_loss, SAC.compute_target)" + tag, bool(found) and found[0][2] == dqn_mask[2],
-             "DQN and SAC use the same non-terminal mask function", loc4, key="sibling-mask",
-             detail=f"DQN table {bin(dqn_mask[2])} SAC tables {[bin(x[2]) for x in found]}")
+        mask_cases(s, nz4, "C07.3", con4 + tag, loc4, out, env4["target"], sym["dones"], sym["timeouts"])
         # the key of the next-action sample is a per-row split of a key not used for the batch sample
         keyarg = targets[2][rows.index("key")] if "key" in rows else None
         samp_keys = [dict((k_, v) for k_, v in c[3] if k_).get("key") for c in batch]
@@ -251,5 +255,5 @@ def check(s):
     names = [a.arg for a in s.method("SAC", "actor_loss")[2].args.args]
     s.ob("C07.4", con6, names[:1] == ["policy"] and "qf1" in names[1:] and "qf2" in names[1:],
          "actor_loss(policy, batch, qf1, qf2, ...): only the policy is differentiated", loc6, key="actor-params", detail=str(names))
-    for r, n in (("C07.1", 4), ("C07.2", 8), ("C07.3", 5), ("C07.4", 12), ("C07.5", 1)):
+    for r, n in (("C07.1", 4), ("C07.2", 8), ("C07.3", 12), ("C07.4", 12), ("C07.5", 1)):
         s.floor(r, n)
